@@ -276,6 +276,7 @@ type Callee struct {
 	Recv      ast.Expr         // receiver expression for method calls
 	RecvIface *types.Interface // static interface (or type-parameter constraint) of the receiver
 	RecvTP    *types.TypeParam // receiver is a value of this type parameter
+	RecvVal   Value            // abstract value of a plain-variable receiver (set by the trace domain before classification)
 }
 
 func (c *Callee) String() string {
